@@ -139,6 +139,10 @@ func checkC12(r *core.Run) {
 			r.Witness(cl, "", s, fmt.Sprintf("URLSetSanitized(%s)=%s: %s", core.Q(s), core.Q(out), what), map[string]string{"Input": s})
 		}
 	}
+	// hidden state between calls (runs first, sequentially)
+	pairLayer(r, strPairItems([]string{"", "a", "/a", "/a 1x", "/a 1x, /b 2x", "/a 1x,/b", "a,b", "a, b", ",", " ", "javascript:x", "javascript:x 1x", "/a 1x, javascript:x 2x", "javascript:x, /a",
+		"JAVASCRIPT:x 2x", "https://o/p 100w", "https://o/p 1x, https://o/q 2x", "data:x", "/a 1x 2x", "/a x", "/a 1xx", "/a\f1x", "\x00javascript:x", "a:b", "a/b:c 1x", "&", "/a,", ",/a",
+		"\u0130javascript:x", "/\u0130 1x, javascript:x", strings.Repeat("/a 1x, ", 40) + "javascript:x", strings.Repeat("a", 130) + ":x 1x", "/" + strings.Repeat("a", 130) + ", javascript:x"}, c12Judge))
 	alpha := []string{"a", ",", " ", "\t", "\n", "\f", "\r", "\v", "(", ")", "1", "x", ".", "e", "_", "+", "-", "%", ":", "&", "w", "javascript:alert(1)", "https://o/p", "%2c", "0x1p-2", "inf", "2x"}
 	ln := 4
 	if r.Thorough() {
